@@ -3,6 +3,11 @@
 #![allow(dead_code, unused_imports, clippy::all)]
 
 pub mod spec;
+pub mod conv;
+#[cfg(cv_replay)]
+pub mod report;
+#[cfg(test)]
+mod native_tests;
 
 #[cfg(kani)]
 pub mod proofs;
